@@ -6,6 +6,7 @@ import io
 import json
 import os
 import re
+import shutil
 import tempfile
 import threading
 import time
@@ -33,7 +34,7 @@ RULE = (
     "case = (1-2 writer threads, each a list of critical sections `with tree:` of 2-3 mutation steps whose "
     "intermediate states are distinguishable from every committed state (paired nodes, clear+rebuild, add+move), "
     "optionally nesting `with tree:` and calling snapshot operations inside; 1-3 reader threads calling save (to a "
-    "stream and to a file path), to_dotfile (stream and path), copy_to(deep=False), copy, "
+    "stream and to a file path), to_dotfile (stream, path, and path with conversion by Graphviz), copy_to(deep=False), copy, "
     "copy(predicate), filtered, copy_to, to_dict_list(mapper), to_dotfile(stream, node_mapper), `with tree:`+iterate; "
     "a schedule = list of ints). Oracle: every snapshot, decoded to a shape, equals a committed state S_j with "
     "commits-at-call-start <= j <= commits-at-return; no deadlock, no hang; no exception. Exhaustive part: ALL "
@@ -51,6 +52,9 @@ ASSUMPTIONS = [
 EXHAUSTIVE_NOTE = {"quick": "all schedules of a pair section x each of 8 snapshot operations, of a rebuild section x {to_dict_list, save} and of a typed pair section x save (evidence classes say whether a limit was hit)", "thorough": "all schedules of {pair, rebuild, move} section x each of 8 snapshot operations, plus 2-section writers"}
 
 READER_OPS = ["save", "copy", "copy_pred", "filtered", "copy_to", "to_dict_list", "to_dotfile", "with+iterate", "save_path", "to_dotfile_path", "copy_to_shallow"]
+if shutil.which("dot"):
+    # conversion by Graphviz (only where the `dot` program is installed)
+    READER_OPS.append("to_dotfile_format")
 SECTIONS = ["pair", "rebuild", "move"]
 
 
@@ -205,6 +209,29 @@ def do_reader_op(tree, op):
         other = TypedTree("O") if isinstance(tree, TypedTree) else Tree("O")
         tree.copy_to(other)
         return tshape(other)
+    if op == "to_dotfile_format":
+        # to_dotfile(<path>, format="plain"): Graphviz' line format lists nodes (id, label) and edges (tail, head)
+        tmp = tempfile.mkdtemp(prefix="verif_c18_")
+        try:
+            path = os.path.join(tmp, "out.plain")
+            yield_point("before-dotfile")
+            tree.to_dotfile(path, format="plain", unique_nodes=False)
+            with open(path) as fp:
+                lines = fp.read().split("\n")
+        finally:
+            shutil.rmtree(tmp, ignore_errors=True)
+        labels, kids = {}, {}
+        for ln in lines:
+            tok = ln.split(" ")
+            if tok[0] == "node":
+                labels[tok[1]] = tok[6]
+            elif tok[0] == "edge":
+                kids.setdefault(tok[1], []).append(tok[2])
+
+        def sub(key):
+            return sorted([labels.get(c, "?"), sub(c)] for c in kids.get(key, []))
+
+        return ["__unordered__", sub("0")]
     if op == "copy_to_shallow":
         other = TypedTree("O") if isinstance(tree, TypedTree) else Tree("O")
         yield_point("before-copy_to")
@@ -274,6 +301,11 @@ def agrees(res, state):
     """does the snapshot `res` show the committed state `state`? (a shallow copy shows its top level only)"""
     if isinstance(res, list) and len(res) == 2 and res[0] == "__toplevel-only__":
         return res[1] == [n[0] for n in state]
+    if isinstance(res, list) and len(res) == 2 and res[0] == "__unordered__":
+        def norm(sh):
+            return sorted([n[0], norm(n[1])] for n in sh)
+
+        return res[1] == norm(state)
     return res == state
 
 
